@@ -1,3 +1,4 @@
+import os, re
 """Per-property request streams (correspondence side of each check)."""
 from gen import *
 
@@ -122,6 +123,25 @@ def req_C01(r, tier):
             out.append(("vfel.%s.neg" % A, "vfel.%s.neg %s" % (A, " ".join(L8r[:4]))))
             out.append(("vfel.%s.diff_sum" % A, "vfel.%s.diff_sum %s" % (A, " ".join(L8r[:4]))))
             out.append(("vfel.%s.add" % A, "vfel.%s.add %s" % (A, " ".join(L8r))))
+            out.append(("vfel.%s.mul_negate_lazy" % A, "vfel.%s.mul_negate_lazy %s" % (A, " ".join(L8r))))
+            out.append(("vfel.%s.mul_diff_sum" % A, "vfel.%s.mul_diff_sum %s" % (A, " ".join(L8r))))
+        # worst-case product feeding negate_lazy / diff_sum: every 52-bit low half of the six partial products of the top
+        # limb within a few units of 2^52 and the high halves at their maximum (the margin of `16p - x` in the IFMA
+        # backend); stored witnesses first, then fresh near-misses of the same shape
+        # (IFMA only: the raw pre-images use limbs up to 2^64, outside the `< 2^58` domain of the AVX2 `new`)
+        for (wx, wy) in (margin_corpus() if A == "ifma" else []):
+            for lanesel in range(2):
+                X = [ilst(unreduce_preimage(wx if (j + lanesel) % 2 == 0 else limbs51(r, 51, "rand"))) for j in range(4)]
+                Y = [ilst(unreduce_preimage(wy if (j + lanesel) % 2 == 0 else limbs51(r, 51, "rand"))) for j in range(4)]
+                for op in ("mul_negate_lazy", "mul_diff_sum", "mul"):
+                    out.append(("vfel.%s.%s:margin_corpus" % (A, op), "vfel.%s.%s %s %s" % (A, op, " ".join(X), " ".join(Y))))
+        for i in range(sz(tier, 40, 2000) if A == "ifma" else 0):
+            X, Y = [], []
+            for j in range(4):
+                wx, wy = margin_shape(r)
+                X.append(ilst(unreduce_preimage(wx))); Y.append(ilst(unreduce_preimage(wy)))
+            for op in ("mul_negate_lazy", "mul_diff_sum"):
+                out.append(("vfel.%s.%s:margin_shape" % (A, op), "vfel.%s.%s %s %s" % (A, op, " ".join(X), " ".join(Y))))
     for i in range(sz(tier, 30, 600)):
         # unreduced coordinates of a valid point entering scalar multiplication (run-time selected backend and direct copies)
         k = 1 + r.below(L - 1)
@@ -1066,6 +1086,61 @@ def req_C15(r, tier):
 
 # ------------------------------------------------------------------ C11: the union stream, run on the `checked` profile (overflow checks +
 # debug assertions) and on the release profile; both must agree with the model and never print `panic`
+
+
+# ------------------------------------------------------------------ IFMA mul -> negate_lazy margin (C01/C11)
+def margin_corpus():
+    """stored witnesses (reduced limbs x, y of one lane) on which the top limb of the IFMA product exceeds the limb of 16p"""
+    path = os.path.join(os.path.dirname(os.path.dirname(os.path.abspath(__file__))), "corpus", "ifma_mul_margin.txt")
+    res = []
+    if os.path.exists(path):
+        for line in open(path):
+            m = re.match(r"x=([0-9,]+) y=([0-9,]+)", line.strip())
+            if m:
+                res.append(([int(v) for v in m.group(1).split(",")], [int(v) for v in m.group(2).split(",")]))
+    return res
+
+
+def unreduce_preimage(red):
+    """raw u64 limbs whose parallel-carry reduction (`F51x4Reduced::from`, and the weak reduce of the other backends) gives
+    exactly the limbs `red` (limb 0 < 2^51 + 19*2^13, limbs 1..4 < 2^51 + 2^13)"""
+    T = 1 << 51
+    low, carry_in = [0] * 5, [0] * 5          # carry_in[i] = carry that must arrive at limb i
+    if red[0] >= T:
+        c4 = (red[0] - T) // 19 + 1
+        low[0], carry_in[0] = red[0] - 19 * c4, c4
+    else:
+        low[0] = red[0]
+    for i in range(1, 5):
+        if red[i] >= T:
+            carry_in[i] = red[i] - (T - 1)
+            low[i] = T - 1
+        else:
+            low[i] = red[i]
+    # carry out of limb i feeds limb i+1 (limb 4 feeds limb 0 times 19)
+    raw = [low[i] | (carry_in[(i + 1) % 5] << 51) for i in range(5)]
+    assert all(v < (1 << 64) for v in raw)
+    return raw
+
+
+def margin_shape(r):
+    """fresh inputs of the witness shape: x_i = 2^51 + a_i, y_j = 2^51 + b_j with a_i b_j small and negative for i + j = 4
+    (1 <= i, j <= 3), x0, y0 at the top of their range, x4 = -d1 / y0 and y4 = -d2 / x0 mod 2^52"""
+    T, M52 = 1 << 51, (1 << 52) - 1
+    while True:
+        ex = r.choice([19 * 8192, 19 * 8192, 19 * 33, 19 * 97, 19 * 1024])
+        x0 = (T + ex - 1 - 2 * r.below(200)) | 1
+        y0 = (T + ex - 1 - 2 * r.below(200)) | 1
+        d1, d2 = 1 + r.below(40), 1 + r.below(40)
+        x4 = (-d1 * pow(y0, -1, 1 << 52)) & M52
+        y4 = (-d2 * pow(x0, -1, 1 << 52)) & M52
+        if x4 >= T or y4 >= T:
+            continue
+        s = r.choice([1, -1])
+        a = [T + s * (1 + r.below(3)) for _ in range(3)]
+        b = [T - s * 1 for _ in range(3)]
+        return [x0] + a + [x4], [y0] + b + [y4]
+
 
 def req_C11(r, tier):
     out = []
